@@ -89,6 +89,7 @@ let compile_of (input : n list) : string =
 let handle (line : string) : string =
   match String.split_on_char ' ' line with
   | [ "compile"; h ] -> compile_of (bytes_of_hex h)
+  | [ "nuke"; h ] -> "ok " ^ hex_of_bytes (nuke (bytes_of_hex h))
   | [ "unquote"; h ] -> (match go_unquote (bytes_of_hex h) with None -> "err" | Some b -> "ok " ^ hex_of_bytes b)
   | [ "tokens"; h ] -> tokens_of (bytes_of_hex h) 100000
   | [ "quote"; h ] -> "ok " ^ hex_of_bytes (go_quote (bytes_of_hex h))
